@@ -640,15 +640,31 @@ class Sha512CryptStub:
     def hash(self, secret):
         if isinstance(secret, (SStr, SInt)):
             raise EngineError("symbolic secret reached passlib")
-        if "salt" in self.settings or not core.active():
+        rounds = self.settings.get("rounds", 5000)  # passlib omits rounds=5000 from the string
+        if isinstance(rounds, SInt):
+            # symbolic cost parameter: passlib's range check (1000..999999999) decides between ValueError and a hash whose
+            # body is an environment value (it depends on the rounds); the rendered parameter stays symbolic
+            if core.EX.branch(rounds._cmp_expr(1000, "lt")):
+                return self.real.using(**dict(self.settings, rounds=999)).hash(secret)
+            if core.EX.branch(rounds._cmp_expr(999999999, "gt")):
+                return self.real.using(**dict(self.settings, rounds=10 ** 9)).hash(secret)
+            if not core.EX.branch(rounds._cmp_expr(5000, "ne")):
+                return Sha512CryptStub(self.real, dict(self.settings, rounds=5000)).hash(secret)
+        elif "salt" in self.settings or not core.active():
             return self.real.using(**self.settings).hash(secret)
         n = ENV.sha_n
         ENV.sha_n += 1
         cs = [ord(c) for c in "$6$"]
-        rounds = self.settings.get("rounds", 5000)  # passlib omits rounds=5000 from the string
-        if rounds != 5000:
+        if isinstance(rounds, SInt):
+            cs += [ord(c) for c in "rounds="] + list(core.sym_str(rounds).cs) + [ord("$")]
+        elif rounds != 5000:
             cs += [ord(c) for c in "rounds=%d$" % rounds]
+        salt = self.settings.get("salt")
         for i in range(16):
+            if salt is not None:
+                if i < len(salt):
+                    cs.append(ord(salt[i]))
+                continue
             c = z3.BitVec("env_sha_salt%s!%d_%d" % (ENV.tag, n, i), CW)
             core.EX.assume(core.in_set_expr(c, HASH64))
             cs.append(c)
